@@ -10,6 +10,14 @@ CHECKS = {
             "Decides structural necessary conditions of the ordinal-sequence behaviour on the current source: normaliser = specification on all integers, only normalised positions index storage, slot gates, slice-bound forms, search convention, loop progress, commit-last, no zero ordinals. Not the behaviour over histories.",
             "go/types+go/cfg of x/tools v0.29.0; the spec tables in checker/c01.go; loop-carried element placement is not decided",
             "DESIGN.md 5/C01"),
+    "C13": ("static analysis: octagon abstract interpretation of the stack guards and of the capacity given at construction (SYM), call-site tables for the single mutation gate and the stack end",
+            "Decides: no constructor builds a stack whose capacity is below its initial size (all integers), AddValue/RemoveTop guard exactly the full/empty states before touching storage, one end (slot 0 / index 1), views delegate, storage mutated only through the three gates. LIFO over histories is not decided.",
+            "go/types of x/tools v0.29.0; spec tables in checker/c13.go; relies on the list's own correctness (C01)",
+            "DESIGN.md 5/C13"),
+    "C17": ("static analysis: octagon abstract interpretation of every iterator method against the cursor transition table under the inductive invariant 0<=slot<=size (SYM), SSA freshness summaries for the snapshot (FLOW), type-graph reachability (EFFECT)",
+            "Decides the per-method transition relation of the cursor for all integers (slot, size, argument), in-bounds element access, preservation of the invariant, immutability of the snapshot fields, freshness of the array handed to every iterator, and that no iterator is reachable from shared state. Content of the snapshot is not decided.",
+            "go/types, go/ssa of x/tools v0.29.0; spec tables in checker/c17.go",
+            "DESIGN.md 5/C17"),
 }
 
 NOT_YET = "no structural clause is checked yet in this round; the behavioural property itself quantifies over histories/schedules/inputs that static analysis in reach cannot bound"
